@@ -5,6 +5,7 @@ go 1.26
 require (
 	github.com/anishathalye/porcupine v1.3.0
 	github.com/blang/semver v3.5.1+incompatible
+	github.com/dgraph-io/badger/v3 v3.2103.2
 	github.com/janelia-flyem/dvid v0.0.0
 	github.com/twinj/uuid v1.0.0
 )
@@ -31,7 +32,6 @@ require (
 	github.com/cespare/xxhash/v2 v2.2.0 // indirect
 	github.com/coocood/freecache v1.2.1 // indirect
 	github.com/davecgh/go-spew v1.1.1 // indirect
-	github.com/dgraph-io/badger/v3 v3.2103.2 // indirect
 	github.com/dgraph-io/ristretto v0.1.0 // indirect
 	github.com/dustin/go-humanize v1.0.0 // indirect
 	github.com/eapache/go-resiliency v1.2.0 // indirect
@@ -82,3 +82,5 @@ require (
 )
 
 replace github.com/janelia-flyem/dvid => /repo
+
+replace github.com/dgraph-io/badger/v3 => /verif/.build/badger-src
